@@ -2,8 +2,8 @@
 # seeded_regress.sh [names...]: in a private workspace (/tmp/w/regress: copy of /verif + worktree of /repo HEAD) apply each
 # seeded change, run its property's quick check, and print one line per change. /repo and /verif are not touched.
 set -u
-W=/tmp/w/regress
-if [ ! -d $W ]; then /verif/tools/mk_workspace.sh regress >/dev/null; fi
+W=/tmp/w/${REGRESS_WS:-regress}
+if [ ! -d $W ]; then /verif/tools/mk_workspace.sh ${REGRESS_WS:-regress} >/dev/null; fi
 rsync -a --exclude .git --exclude evidence --exclude replays --exclude __pycache__ --exclude .lake /verif/ $W/verif/
 cd $W/verif
 export S2T_REPO=$W/repo
